@@ -8,17 +8,16 @@ pub fn def() -> PropDef {
     PropDef {
         id: "C20",
         builds: BOTH,
-        rule: "every text over {L,SP,W,NL,HY} up to length N x columns 1..=4 x total widths 0..=12 x 5 gap triples (empty, ASCII, multi-byte, multi-character) x break_words x algorithms; non-trivial = >= 2 wrapped lines, or a wrapped line wider than the column",
+        rule: "every text over {L,SP,W,NL,HY,CSI} up to length N x columns 1..=4 x total widths 0..=12 x 5 gap triples (empty, ASCII, multi-byte, multi-character) x break_words x algorithms; non-trivial = >= 2 wrapped lines, or a wrapped line wider than the column",
         assumptions: BASE_ASSUMPTIONS,
         floor: |t| t.pick(50_000, 1_000_000),
         run,
-        panics_are_verdict: true,
     }
 }
 
 fn run(r: &mut Run) -> Result<(), MachineryError> {
     let t = r.tier;
-    let alpha = [L, SP, W, NL, HY];
+    let alpha = [L, SP, W, NL, HY, CSI];
     let n = t.pick(4, 6);
     let gaps = [("", "", ""), ("|", "|", "|"), ("\u{4f60}", " ", ""), ("", "--", ">"), ("| ", " | ", " |")];
     let space = Space { name: "C20/texts".into(), menu: menu(&alpha), max_len: n, desc: format!("texts of length <= {} x columns 1..=4 x total widths 0..=12 x gap triples {:?} x break_words x algorithms", n, gaps) };
@@ -34,10 +33,11 @@ fn run(r: &mut Run) -> Result<(), MachineryError> {
                             let cfg = Cfg { width: total, sep: *seps().last().unwrap(), alg, spl: Spl::Hyphen, bw, ii: "", si: "", crlf: false };
                             let o = cfg.opts();
                             let d = || format!("columns={} total_width={} gaps=({:?},{:?},{:?}) break_words={} algorithm={:?}", cols, total, l, m, rg, bw, alg);
-                            let rows = match cx.guard(|| wrap_columns(&text, cols, o.clone(), l, m, rg)) {
+                            let rows = match cx.guard_quiet(|| wrap_columns(&text, cols, o.clone(), l, m, rg)) {
                                 Some(x) => x,
                                 None => {
-                                    cx.fail("C20-never-fails", &d, &|| json!({"outcome": "panic"}));
+                                    let msg = cx.last_panic();
+                                    cx.fail("C20-never-fails", &d, &|| json!({"outcome": "panic", "panic": msg}));
                                     continue;
                                 }
                             };
